@@ -3,6 +3,7 @@ CONSTANTS
   Count = 1
   Kind = "window"
   MaxRolls = 3
+  MaxWipes = 0
 INIT HInit
 NEXT HNext
 INVARIANTS WindowLaw ActiveGone OutsideUntouched RemoveOnly NoDup Emit
